@@ -23,6 +23,10 @@ STRENGTHENED = {
  "C15-m11": "missed at first: individuals and result collections were only built over totally ordered results; they now also wrap TestResult<f64, f64> (score against error, NaN) and plain f64, alone and nested, and every comparison operator must agree with the results' own partial order - incomparable stays incomparable",
  "C16-m11": "missed at first: in the call histories on one operator value every call succeeded; the call in the middle is now also one on an empty population and one that fails part-way (an individual with fewer results than lexicase looks at), and must leave nothing behind in the operator value",
  "C17-m11": "missed at first: dynamic weighted lists were never nested; lists inside lists (depth 1-3, innermost failing with its own zero-weight error, with a member's cause chain, or on an empty population) must now deliver the innermost error wrapped exactly once per level",
+ "C01-m13": "missed at first: the monitors read the printed output once, from a clone of the final state; C01 now also reads it twice from the same state, prints more (directly and by running a program on that state) and reads again - reading is an observation and must not change what is there",
+ "C06-m14": "missed at first: C06 built every dynamic weighted list completely before its first selection; it now also uses lists while they are being built (selections - failing ones on an all-zero list or an empty population included - between extensions), each judged against the weights the list has at that moment",
+ "C10-m14": "missed at first: reversed ranges (start > end) were not judged at all because the statement does not say whether they are an error or an empty exchange; they are still not judged for that, but must not panic and must not modify either genome",
+ "C12-m14": "missed at first: generators were only used as constructed; the public configuration fields (BoolGenerator::true_probability here; the size and element generator of a collection generator in C18) are now also reassigned after construction and after earlier samples, and what is drawn must follow the value the field has at that moment",
  "C15-m10": "missed at first: copies were never made through clone_from; EcIndividual and TestResults are now also copied with clone_from and Vec::clone_from (overwriting existing elements) and must equal their source",
  "C16-m9": "missed at first, as a harness build failure: the change adds Send + Sync bounds to Map's Vec impl, which C14's Rc-based probes do not satisfy, and all ec monitors lived in one binary. Every property now has its own binary, and C16's registry maps an operator over vectors of up to 2049 genomes",
  "C17-m10": "missed at first: the member errors used behind DynWeighted had no cause chain; a member whose error has a two-level source chain is now used and the whole chain must be reachable through source() from what the list reports",
